@@ -20,7 +20,7 @@ CHECKS = {
  "C03": dict(
    technique="property-based testing: grammar-directed statement generator with a model tree (round-trip text -> parse -> tree equality), random parenthesisation and keyword case; thorough tier adds coverage-guided native fuzzing (go test -fuzz over rapid.MakeFuzz) of the same generator and oracle",
    level="exploration",
-   text="Generated-input search: a model tree is drawn first (typed expressions over every operator level, every SELECT clause, joins, set operations, CTEs, INSERT/UPDATE/DELETE with their clauses, MERGE with table or sub-query source and all WHEN forms, CREATE TABLE with column and table constraints, CREATE INDEX/VIEW/MATERIALIZED VIEW, DROP, TRUNCATE, REFRESH, seven ALTER TABLE operations, table partitioning, the MySQL forms REPLACE / ON DUPLICATE KEY UPDATE / MATCH AGAINST / SHOW / DESCRIBE) and rendered with required plus random redundant parentheses; gosqlx.Parse must accept and its tree must deep-equal the model tree built from the library's own node types (both directions: nothing lost, nothing invented). An exhaustive operator table (all sequences of one to three standard binary operators, bare, parenthesised, with NOT and unary minus: 11 206 statements) is compared with an independent precedence-climbing reference. A third sub-check fills 39 statement templates taken from the compatibility table's fully-supported rows with generated operands and demands acceptance, the statement type and the presence of every operand sub-tree (nine rejected forms are listed findings). Not exhaustive beyond the generated cases.",
+   text="Generated-input search: a model tree is drawn first (typed expressions over every operator level, every SELECT clause, joins, set operations, CTEs, INSERT/UPDATE/DELETE with their clauses, MERGE with table or sub-query source and all WHEN forms, CREATE TABLE with column and table constraints, CREATE INDEX/VIEW/MATERIALIZED VIEW, DROP, TRUNCATE, REFRESH, seven ALTER TABLE operations, table partitioning, the MySQL forms REPLACE / ON DUPLICATE KEY UPDATE / MATCH AGAINST / SHOW / DESCRIBE) and rendered with required plus random redundant parentheses; gosqlx.Parse must accept and its tree must deep-equal the model tree built from the library's own node types (both directions: nothing lost, nothing invented). An exhaustive operator table (all sequences of one to three standard binary operators, bare, parenthesised, with NOT and unary minus: 11 206 statements) is compared with an independent precedence-climbing reference. A third sub-check fills 45 statement templates taken from the project's documents with generated operands and demands acceptance, the statement type and the presence of every operand sub-tree (thirteen rejected forms are listed findings); a fourth writes LIMIT / OFFSET / FETCH counts in drawn numeric spellings and compares the tree's numbers with the written ones. Not exhaustive beyond the generated cases.",
    note="Trusted: the model grammar and its AST conventions (pkg/sql/ast/doc.go, DESIGN appendix A); constructs no document promises (clauses after a FROM-less SELECT, implicit alias after a bare column, mixed INTERSECT precedence, the DDL forms listed in DESIGN.md 9.4) are not generated.",
    design="4/C03"),
  "C06": dict(
